@@ -9,6 +9,7 @@ import (
 	"net"
 	"os"
 	"runtime"
+	"sort"
 	"strconv"
 	"strings"
 	"testing"
@@ -142,6 +143,8 @@ func c07Request(class string) []byte {
 		return []byte("POST /ok HTTP/1.1\r\nHost: w.test\r\nRange: bytes=99999999999999999999-,-,5-1,abc\r\nAccept: ;;;q=,*/*;q=2,text/html;q\r\n" +
 			"Accept-Encoding: br;\r\nAccept-Language: ,,;q=x\r\nCookie: fiber_flash=\xdd\xff\xff\xff\xff; a=; =b; ;;\r\nContent-Encoding: gzip, br, zstd, deflate\r\n" +
 			"X-Forwarded-For: 1.2.3.4.5, ::::, " + strings.Repeat("9", 300) + "\r\nContent-Type: multipart/form-data; boundary=\r\nContent-Length: 10\r\n\r\nnot-gzip!!")
+	case "hostileframing":
+		return []byte("POST /ok HTTP/1.1\r\nHost: w.test\r\nTransfer-Encoding: gzip\r\n\r\n")
 	case "absoluteuri":
 		return []byte("GET http://w.test/ok HTTP/1.1\r\nHost: w.test\r\n\r\n")
 	case "multipart":
@@ -153,6 +156,68 @@ func c07Request(class string) []byte {
 		return []byte("GET /ok?x=1&y[]=2&z[a]=3 HTTP/1.1\r\nHost: sub.w.test\r\nAccept: text/html;q=0.8, application/json;v=1;q=0.9, */*;q=0.1\r\nAccept-Encoding: gzip;q=1.0, br\r\nAccept-Language: en-US,en;q=0.5\r\nAccept-Charset: utf-8, iso-8859-1;q=0.5\r\nCookie: a=b; fiber_flash=\x91\x82\xa3key\xa1k\xa5value\xa1v\r\n\r\n")
 	}
 	return []byte("GET /ok HTTP/1.1\r\nHost: w.test\r\n\r\n")
+}
+
+// c07Hostile: concrete members of the request class "hostileheaders" -- one header (or body framing) set to one hostile value,
+// everything else benign.  The specification says of all of them: the handler runs, 200, the connection stays usable.
+func c07Hostile(class string) [][]byte {
+	tbl := map[string][]string{
+		"Range": {"bytes=", "bytes=-", "bytes=--", "bytes=a-b", "bytes=1-0", "bytes=0-0,", "=0-1", "bytes 0-1", "bytes=0-1,,", "bytes=99999999999999999999-1",
+			"bytes=-99999999999999999999", "bytes=0--1", "bytes=-0", "bytes=5-", "bytes=-5", "bytes=0-999999", "bytes=1000-2000", "items=0-1", "bytes=0-1=2", ",", "bytes=,-",
+			"bytes= 0 - 1", "bytes=0-1-2", "bytes=\t0-1", "BYTES=0-1", "bytes=0x1-0x2", "bytes=+1-+2", "bytes=1e3-"},
+		"Accept": {"", ";", ";;", ";q", ";q=", "text/html;", "text/html;q", "text/html;q=", "text/html;q=x", "text/html;q=-1", "text/html;q=1e9", "text/html;=", "text/html;a",
+			"text/html;a=\"", "text/html;a=\"\\", ",", ",,,", "*/*;q=0,", "/", "text/", "/html", "*", "text/html;q=0.5;q=0.6", "text/html ; q = 0.5", "a/b;c=d;e=\"f,g\";q=0.1,",
+			"text/html;q=0." + strings.Repeat("9", 400), strings.Repeat("a/b,", 300), strings.Repeat(";", 500)},
+		"Accept-Encoding": {"br;", "gzip;q", "gzip;q=", ";", ",", "*;q=0", "gzip;;q=1", "identity;q=0,*;q=0", "gzip, , br", "\"gzip\"", "gzip;q=1.0000000"},
+		"Accept-Language": {",,;q=x", "en-", "-", "en--US", "*-*", "en;q", "en_US", "i-klingon;q=0.5,", strings.Repeat("en-", 200)},
+		"Accept-Charset":  {"utf-8;", ";q=0", "*;", "utf-8;q=0.0000", "\x80"},
+		"Cookie": {"fiber_flash=\xdd\xff\xff\xff\xff", "fiber_flash=\x91", "fiber_flash=\x91\x84", "fiber_flash=\xdc\xff\xff", "fiber_flash=\x91\x84\xa3key\xda\xff\xff",
+			"fiber_flash=\xc1", "fiber_flash=", "fiber_flash", "a=; =b; ;;", "=", ";", "a=b;;;c", "a=\"b", "a=b; a=c; a=d", strings.Repeat("k=v; ", 500), "fiber_flash=" + strings.Repeat("\x91", 2000)},
+		"Content-Encoding": {"gzip, br, zstd, deflate", "gzip", "br", "zstd", "deflate", "gzip,gzip,gzip,gzip,gzip,gzip,gzip,gzip,gzip,gzip", ",", "unknown", "identity", "GZIP", "gzip;q=1"},
+		"X-Forwarded-For": {"1.2.3.4.5", "::::", strings.Repeat("9", 300), ",", ",,,", " , ", "1.2.3.4,", ",1.2.3.4", "[::1]:80", "1.2.3.4:80", "::ffff:1.2.3.4", "fe80::1%eth0", "unknown", "\"1.2.3.4\"",
+			strings.Repeat("1.1.1.1,", 400)},
+		"X-Forwarded-Host":  {"", ".", "..", "a..b", strings.Repeat("a.", 300), "host:port:port", "[::1", "ho st"},
+		"X-Forwarded-Proto": {"", "https,http", "HTTPS", "javascript", strings.Repeat("s", 500)},
+		"If-None-Match":     {"", "*", "W/", "W/\"", "\"", "\"\"", ",", "W/\"a\",,\"b\"", strings.Repeat("\"x\",", 300), "\"unterminated"},
+		"If-Modified-Since": {"", "yesterday", "Mon, 99 Jan 9999 99:99:99 GMT", strings.Repeat("1", 200)},
+		"Cache-Control":     {"", "no-cache", "NO-CACHE", "no-cache=", ",no-cache", "no-cachex", strings.Repeat("a,", 300)},
+		"Content-Type": {"multipart/form-data", "multipart/form-data;", "multipart/form-data; boundary", "multipart/form-data; boundary=", "multipart/form-data; boundary=\"", ";",
+			"application/x-www-form-urlencoded;;;", "application/json; charset", "/", strings.Repeat("a", 600)},
+		"Host":              {"", ".", "a..b.c.d.e", strings.Repeat("a.", 120) + "test", "[::1]", "[::1", "h:1:2", "xn--", "a_b.test", "1.2.3.4", "a.b.c.d.e.f.g.h.i.j.k.l.m.n.test"},
+		"Transfer-Encoding": {"identity", "chunked, chunked", "gzip, chunked", "Chunked"},
+	}
+	framing := map[string]bool{"Host": true, "Transfer-Encoding": true, "Content-Type": true}
+	var names []string
+	for k := range tbl {
+		if framing[k] == (class == "hostileframing") {
+			names = append(names, k)
+		}
+	}
+	sort.Strings(names)
+	var out [][]byte
+	for _, h := range names {
+		for _, v := range tbl[h] {
+			if strings.ContainsAny(v, "\r\n") {
+				continue
+			}
+			var b bytes.Buffer
+			b.WriteString("POST /ok?x=1 HTTP/1.1\r\n")
+			if h != "Host" {
+				b.WriteString("Host: sub.w.test\r\n")
+			}
+			if h == "Transfer-Encoding" {
+				b.WriteString(h + ": " + v + "\r\n\r\n")
+				if strings.Contains(strings.ToLower(v), "chunked") { // otherwise the server takes the request to have no body
+					b.WriteString("4\r\nBODY\r\n0\r\n\r\n")
+				}
+				out = append(out, b.Bytes())
+				continue
+			}
+			b.WriteString(h + ": " + v + "\r\nContent-Length: 10\r\n\r\nnot-gzip!!")
+			out = append(out, b.Bytes())
+		}
+	}
+	return out
 }
 
 func TestC07(t *testing.T) {
@@ -191,6 +256,26 @@ func TestC07(t *testing.T) {
 			_ = c.Fresh()
 			_ = c.Subdomains()
 			_ = c.Queries()
+			_, _, _ = c.Host(), c.Hostname(), c.Scheme() // Port() panics by design on a non-TCP peer such as this in-memory connection
+			_, _, _, _ = c.IP(), c.IsFromLocal(), c.IsProxyTrusted(), c.Secure()
+			_, _, _, _ = c.OriginalURL(), c.BaseURL(), c.Path(), c.Protocol()
+			_, _, _ = c.XHR(), c.Stale(), c.Is("json")
+			_, _ = c.BodyRaw(), c.GetReqHeaders()
+			_, _ = c.FormValue("f"), c.Query("x")
+			_, _ = c.FormFile("f")
+			_ = fiber.Query[int](c, "x")
+			_ = fiber.Params[int](c, "nope")
+			_ = c.Redirect().OldInputs()
+			_ = c.String()
+			var bound struct {
+				X  int      `query:"x" header:"X-Forwarded-For" cookie:"a" form:"f"`
+				Ys []string `query:"y" header:"Accept" cookie:"fiber_flash" form:"g"`
+			}
+			_ = c.Bind().Query(&bound)
+			_ = c.Bind().Header(&bound)
+			_ = c.Bind().Cookie(&bound)
+			_ = c.Bind().Form(&bound)
+			_ = c.Bind().Body(&bound)
 			h, a := c.Get("X-Helper"), c07Arg(c.Get("X-Arg"))
 			switch h {
 			case "set":
@@ -236,7 +321,7 @@ func TestC07(t *testing.T) {
 	for _, k := range []string{"default", "custom", "immutable", "methods", "unescape"} {
 		lns[k] = mk(k)
 	}
-	var n, nHostileArg, nMalformed int
+	var n, nHostileArg, nMalformed, nHostileVariants int
 	readCases(t, "VERIF_CASES", func(line []byte) {
 		var cs struct {
 			First  string `json:"first"`
@@ -252,17 +337,6 @@ func TestC07(t *testing.T) {
 			t.Fatalf("bad case %v", err)
 		}
 		n++
-		fail := func(what string, exp, got any) {
-			o.violation(map[string]any{"check": "wire-" + what, "prop": "C07", "first": cs.First, "helper": cs.Helper, "arg": cs.Arg, "ctx": cs.Ctx, "expected": exp, "observed": got})
-		}
-		var ms1, ms2 runtime.MemStats
-		runtime.ReadMemStats(&ms1)
-		conn, err := lns[cs.Ctx].Dial()
-		if err != nil {
-			t.Fatal(err)
-		}
-		defer conn.Close()
-		_ = conn.SetDeadline(time.Now().Add(5 * time.Second))
 		req := c07Request(cs.First)
 		if cs.First == "ok" && cs.Helper != "" {
 			req = []byte("GET /ok HTTP/1.1\r\nHost: w.test\r\nX-Helper: " + cs.Helper + "\r\nX-Arg: " + cs.Arg + "\r\n\r\n")
@@ -277,62 +351,92 @@ func TestC07(t *testing.T) {
 		for _, f := range cs.Fate {
 			statuses = append(statuses, f.Status)
 		}
-		go func() { _, _ = conn.Write(req) }() // large requests must not block on the pipe
-		br := bufio.NewReader(conn)
-		resp, err := readStrict(br)
-		runtime.ReadMemStats(&ms2)
-		if err != nil {
-			fail("no-response", statuses, err.Error())
-			return
+		variant := ""
+		fail := func(what string, exp, got any) {
+			o.violation(map[string]any{"check": "wire-" + what, "prop": "C07", "first": cs.First, "helper": cs.Helper, "arg": cs.Arg, "ctx": cs.Ctx, "variant": variant, "expected": exp, "observed": got})
 		}
-		if resp.Err != "" {
-			fail("response-not-well-formed", "a well-formed HTTP/1.1 response", resp.Err)
-			return
-		}
-		okStatus, second := false, 0
-		for _, f := range cs.Fate {
-			if resp.Status == f.Status {
-				okStatus, second = true, f.Second
+		exchange := func(req []byte) {
+			var ms1, ms2 runtime.MemStats
+			runtime.ReadMemStats(&ms1)
+			conn, err := lns[cs.Ctx].Dial()
+			if err != nil {
+				t.Fatal(err)
 			}
-		}
-		if cs.First == "ok" && (cs.Helper == "redirect" || cs.Helper == "flash") {
-			okStatus, second = resp.Status == 303 || resp.Status == 302, 200 // the redirect helpers set their own status
-		}
-		if !okStatus {
-			fail("status", statuses, resp.Status)
-			return
-		}
-		if alloc := ms2.TotalAlloc - ms1.TotalAlloc; alloc > 4<<20+64*uint64(len(req)) {
-			fail("allocation-out-of-proportion", "<= 4MiB + 64 x request size", alloc)
-			return
-		}
-		for _, hv := range resp.Headers {
-			if strings.EqualFold(hv[0], "Injected") {
-				fail("helper-argument-added-a-header-line", "no header named Injected", hv)
+			defer conn.Close()
+			_ = conn.SetDeadline(time.Now().Add(5 * time.Second))
+			go func() { _, _ = conn.Write(req) }() // large requests must not block on the pipe
+			br := bufio.NewReader(conn)
+			resp, err := readStrict(br)
+			runtime.ReadMemStats(&ms2)
+			if err != nil {
+				fail("no-response", statuses, err.Error())
 				return
 			}
-		}
-		if bytes.HasPrefix(resp.Body, []byte("EARLYBODY")) || bytes.Contains(resp.Body, []byte("Injected: 1\r\n")) && cs.Helper != "sendstring" && cs.Helper != "format" && cs.Helper != "jsonp" {
-			fail("helper-argument-started-the-body-early", "the handler's body", string(resp.Body[:min(60, len(resp.Body))]))
-			return
-		}
-		// the second request on the same connection
-		if _, err := conn.Write([]byte("GET /ok HTTP/1.1\r\nHost: w.test\r\n\r\n")); err == nil {
-			resp2, err2 := readStrict(br)
-			got2 := 0
-			if err2 == nil && resp2.Err == "" {
-				got2 = resp2.Status
-			}
-			if got2 != second {
-				fail("connection-fate", second, got2)
+			if resp.Err != "" {
+				fail("response-not-well-formed", "a well-formed HTTP/1.1 response", resp.Err)
 				return
 			}
-		} else if second != 0 {
-			fail("connection-fate", second, "write failed: "+err.Error())
-			return
+			okStatus, second := false, 0
+			for _, f := range cs.Fate {
+				if resp.Status == f.Status {
+					okStatus, second = true, f.Second
+				}
+			}
+			if cs.First == "ok" && (cs.Helper == "redirect" || cs.Helper == "flash") {
+				okStatus, second = resp.Status == 303 || resp.Status == 302, 200 // the redirect helpers set their own status
+			}
+			if !okStatus {
+				fail("status", statuses, resp.Status)
+				return
+			}
+			for _, hv := range resp.Headers {
+				if strings.EqualFold(hv[0], "Connection") && strings.EqualFold(hv[1], "close") {
+					second = 0 // the server announced that it closes: then nothing more may be served
+				}
+			}
+			if alloc := ms2.TotalAlloc - ms1.TotalAlloc; alloc > 4<<20+64*uint64(len(req)) {
+				fail("allocation-out-of-proportion", "<= 4MiB + 64 x request size", alloc)
+				return
+			}
+			for _, hv := range resp.Headers {
+				if strings.EqualFold(hv[0], "Injected") {
+					fail("helper-argument-added-a-header-line", "no header named Injected", hv)
+					return
+				}
+			}
+			if bytes.HasPrefix(resp.Body, []byte("EARLYBODY")) || bytes.Contains(resp.Body, []byte("Injected: 1\r\n")) && cs.Helper != "sendstring" && cs.Helper != "format" && cs.Helper != "jsonp" {
+				fail("helper-argument-started-the-body-early", "the handler's body", string(resp.Body[:min(60, len(resp.Body))]))
+				return
+			}
+			// the second request on the same connection
+			if _, err := conn.Write([]byte("GET /ok HTTP/1.1\r\nHost: w.test\r\n\r\n")); err == nil {
+				resp2, err2 := readStrict(br)
+				got2 := 0
+				if err2 == nil && resp2.Err == "" {
+					got2 = resp2.Status
+				}
+				if got2 != second {
+					fail("connection-fate", second, got2)
+					return
+				}
+			} else if second != 0 {
+				fail("connection-fate", second, "write failed: "+err.Error())
+				return
+			}
+			if n%53 == 1 && variant == "" {
+				o.sample(map[string]any{"first": cs.First, "helper": cs.Helper, "arg": cs.Arg, "ctx": cs.Ctx, "status": resp.Status, "headers": resp.Headers})
+			}
 		}
-		if n%53 == 1 {
-			o.sample(map[string]any{"first": cs.First, "helper": cs.Helper, "arg": cs.Arg, "ctx": cs.Ctx, "status": resp.Status, "headers": resp.Headers})
+		exchange(req)
+		if (cs.First == "hostileheaders" || cs.First == "hostileframing") && cs.Helper == "set" { // the members of the class, one hostile value each
+			for i, hreq := range c07Hostile(cs.First) {
+				k := bytes.Index(hreq, []byte("\r\n\r\n"))
+				lines := strings.Split(string(hreq[:k]), "\r\n")
+				variant = fmt.Sprintf("%d:%.80q", i, lines[len(lines)-1-min(1, len(lines)-2)])
+				nHostileVariants++
+				exchange(hreq)
+			}
+			variant = ""
 		}
 	})
 	// ---- mutation tier: byte-level mutants of the class templates; the oracle is the spec's status universe and its
@@ -424,6 +528,6 @@ func TestC07(t *testing.T) {
 		}
 	}
 	_ = net.ErrClosed
-	o.summary(map[string]any{"cases": n, "helper_calls_with_hostile_argument": nHostileArg, "malformed_or_oversized_requests": nMalformed,
+	o.summary(map[string]any{"cases": n, "helper_calls_with_hostile_argument": nHostileArg, "malformed_or_oversized_requests": nMalformed, "hostile_header_variants": nHostileVariants,
 		"mutants": nFuzz, "mutants_answered": nResp, "mutants_incomplete_no_answer": nSilent, "mutant_statuses": statusSeen, "violations": o.nV})
 }
